@@ -20,6 +20,14 @@ NEEDS = {
  'seed-C17-1': 'a PSSM with a strand-asymmetric background whose score distribution was already cached (pvalue/score/score_distribution used) before reverse_complement(), then a meme p-value on the reverse complement',
  'seed-C18-1': 'stripe, score or scan with a motif of length >= 2 (appends look-ahead rows), then copy() / copy.copy() and a memoryview of the copy',
  'seed-C19-1': 'a multi-step resize sequence that grows within the existing capacity (new(8), write, resize(2), resize(6); or reserve(k) then resize(<=k)): the re-exposed rows keep stale / uninitialised contents',
+ 'seed-C01-2': 'a DNA sequence whose length equals the motif width (L == M), scored through the AVX2 permute wrapper / dispatcher: zero scores instead of one',
+ 'seed-C02-2': 'a scanner block that starts inside the look-ahead rows (striped row count within M-2 below a multiple of the block size, e.g. L in 8161..=8192 with block 256, or tiny block sizes): the empty trailing block re-reads the previous block\'s 8-bit scores and hits are yielded twice',
+ 'seed-C03-2': 'AVX2 host, a window at or near the matrix maximum (discrete sum above 255) and a threshold that does not scale to ~0 (same mechanism as seed-C02-1, produced independently)',
+ 'seed-C04-2': 'AVX2 stripe_into into a reused buffer with a new length below 1024, L % 32 != 0 and more padding cells than rows (100 -> 33, 96 -> 70, 640 -> 321): padding outside the last column keeps symbols of the previous sequence',
+ 'seed-C05-2': 'explicit SSE2 backend, length >= 17 and two different invalid bytes, the first inside the 16-byte vector blocks and another in the scalar tail: the later one is reported',
+ 'seed-C06-2': 'AVX2 u8 maximum over a matrix with an odd number of rows (2-row unrolled loop without tail): aligned 32-byte load of the row one past the end — stale scores in a reused buffer, past the allocation in an exact-capacity one',
+ 'seed-C07-2': 'a non-empty f32 score matrix with no finite cell (every window contains N): AVX2 max() returns f32::MIN, a value stored in no cell',
+ 'seed-C08-2': 'AVX2 host and a window whose rounded-up 8-bit cell sum exceeds 255 (consensus / near-perfect match): wrapping add gives a tiny byte score below the scaled real score (same mechanism as seed-C02-1, produced independently)',
 }
 ids = sys.argv[1:] or sorted(d for d in os.listdir(os.path.join(VERIF, 'seeded')) if os.path.isdir(os.path.join(VERIF, 'seeded', d)))
 for sid in ids:
